@@ -5,7 +5,7 @@
 (G) every uint8 and every uint16 value is replayed on HammingWeight and Monobit(0..8); uint32 / uint64 through byte limbs:
     every byte value in every lane over zero / 0xFF / random backgrounds; HammingWeight(nb_words = k) on arrays of every shape
     <= 3x3x4, every axis (non-negative and negative) and k = 1..3 incl. non-dividing lengths; Value; the five discriminants on
-    EVERY array of shape 2x2 (2x3 thorough) over {-2..2, NaN} along both axes, plus driver-proposed 3-D arrays.
+    EVERY array of shape 2x2 (2x3 thorough) over {-2..2, NaN, +inf, -inf} along both axes, plus driver-proposed 3-D arrays.
 """
 import itertools
 import json
@@ -16,6 +16,7 @@ import numpy as np
 
 from .. import disthist as dh
 from .. import tlc
+from ..core import scribble
 
 
 def words(chk):
@@ -132,6 +133,9 @@ def grouping(chk, rng):
                 chk.violation(f'HammingWeight(nb_words):sum over groups of consecutive words along the chosen axis ({neg})',
                               {'property': 'C15', 'part': 'group', 'case': c, 'axis_passed': axis, 'got_shape': list(got.shape), 'expected_shape': list(want.shape), 'got': got.tolist(), 'expected': want.tolist()},
                               f'HammingWeight(nb_words={c["k"]}) axis={axis} on shape {c["shape"]}: shape {got.shape} vs {want.shape}')
+            scribble(got)          # the result is the caller's; the same model object serves the next call
+        if [int(x) for x in a.reshape(-1)] != c['flat']:
+            chk.violation('HammingWeight(nb_words):the data array is left as it was given', {'property': 'C15', 'part': 'group', 'case': c}, 'HammingWeight modified its input array')
         v = scared.Value()(a)
         if v.shape != a.shape or not np.array_equal(v, a):
             chk.violation('Value:returns the data unchanged', {'property': 'C15', 'part': 'value', 'case': c}, 'Value changed the data')
@@ -143,7 +147,7 @@ NAMES = ['nanmax', 'maxabs', 'opposite_min', 'nansum', 'abssum']
 
 
 def to_arr(flat, shape, dtype='float64'):
-    return np.array([np.nan if x == 99 else x for x in flat], dtype=dtype).reshape(shape)
+    return np.array([np.nan if x == 99 else np.inf if x == 90 else -np.inf if x == -90 else x for x in flat], dtype=dtype).reshape(shape)
 
 
 def disc_compare(chk, flat, shape, rec, key):
@@ -159,6 +163,9 @@ def disc_compare(chk, flat, shape, rec, key):
                     warnings.simplefilter('ignore')
                     got = np.asarray(getattr(scared, name)(a, axis=axis))
                 chk.count(('disc', key, ax, name, axis), nontrivial=True)
+                if not np.array_equal(a, to_arr(flat, shape, a.dtype), equal_nan=True):
+                    chk.violation(f'{name}:the data array is left as it was given', {'property': 'C15', 'part': 'disc', 'name': name, 'axis': axis}, f'{name} modified its input array')
+                    a = to_arr(flat, shape, a.dtype)
                 if got.shape != want.shape or not np.array_equal(got, want, equal_nan=True):
                     chk.violation(f'{name}:reduces exactly the requested axis with NaN entries ignored', {'property': 'C15', 'part': 'disc', 'array': a.tolist(), 'axis': axis, 'name': name,
                                                                                                          'got': got.tolist(), 'expected': want.tolist()},
@@ -167,15 +174,15 @@ def disc_compare(chk, flat, shape, rec, key):
 
 def discriminants(chk, rng):
     shape = [2, 2] if chk.tier == 'quick' else [2, 3]
-    r = tlc.run('ModelsEnum', cfg_text=tlc.cfg(constants={'Mode': 'disc', 'MaxVal': 0}, invariants=['Emit']), defs={'Shape': tlc.tla(shape), 'Vals': '{-2, -1, 0, 1, 2}'}, workers=1)
-    chk.add_tlc(f'GEN:every array of shape {shape} over -2..2 u NaN', r)
+    r = tlc.run('ModelsEnum', cfg_text=tlc.cfg(constants={'Mode': 'disc', 'MaxVal': 0}, invariants=['Emit']), defs={'Shape': tlc.tla(shape), 'Vals': '{-2, -1, 0, 1, 2, 90, -90}' if chk.tier == 'quick' else '{-1, 0, 2, 90, -90}'}, workers=1)
+    chk.add_tlc(f'GEN:every array of shape {shape} over a few finite values u NaN u +-infinity', r)
     for i, e in enumerate(r.emits()):
         disc_compare(chk, e['arr'], shape, e['disc'], i)
         chk.traces_validated += 1
     cases = []
     for _ in range(40 if chk.tier == 'quick' else 300):
         shp = rng.choice([[2, 3, 2], [3, 2], [1, 4], [2, 2, 3], [4, 1]])
-        cases.append({'kind': 'disc', 'flat': [rng.choice([-7, -2, -1, 0, 1, 3, 8, 99, 99]) for _ in range(int(np.prod(shp)))], 'shape': shp})
+        cases.append({'kind': 'disc', 'flat': [rng.choice([-7, -2, -1, 0, 1, 3, 8, 99, 99, 90, -90]) for _ in range(int(np.prod(shp)))], 'shape': shp})
     path = dh.write_json(cases)
     import os
     try:
@@ -195,7 +202,7 @@ def run(chk):
     chk.rule = ('every uint8 and uint16 value (TLC states) x HammingWeight / Monobit(0..8); uint32/uint64: every byte value in every lane over three backgrounds + 2000 random words; grouping: every '
                 '(shape, axis, nb_words, dtype) of the list with both axis spellings; discriminants: every array of the small shape over {-2..2, NaN} x 5 discriminants x axes; one evaluation = one '
                 'compared value/array; non-trivial = all but the zero word')
-    chk.assumptions += ['NaN is the sentinel 99 inside the specification', 'Monobit(b) is claimed for masks representable in the data dtype (numpy refuses the others)',
+    chk.assumptions += ['NaN is the sentinel 99 inside the specification, +-infinity the sentinels +-90 (IEEE: x + inf = inf, inf - inf = NaN)', 'Monobit(b) is claimed for masks representable in the data dtype (numpy refuses the others)',
                         'an all-NaN lane reduces to NaN for the max-type discriminants and to 0 for the sums',
                         'discriminants are claimed for arrays of >= 2 dimensions (a 1-D array is refused by the decorator: the reduced result is not an array)']
     pop = words(chk)
